@@ -325,6 +325,33 @@ def _core_invalid():
     t.links['sub/ln.suite'] = 'e/z.suite'
     add(t, 'sub/s1.suite', ['suites', 'ln.suite'], True)
     yield t.descriptor('core-invalid', label='double:symlink-deep')
+    # the link lies beside its target: the entries of the suite resolve the same way through either name, so that only
+    # the double inclusion itself can make the run invalid
+    t = _base_tree()
+    t.links['sub/alias.suite'] = 's1.suite'
+    add(t, 'root.suite', ['suites', 'sub/alias.suite'])
+    yield t.descriptor('core-invalid', label='double:symlink-beside-target')
+    t = _base_tree()
+    t.links['sub/alias.suite'] = 's1.suite'
+    add(t, 'root.suite', ['suites', 'sub/alias.suite'], True)
+    yield t.descriptor('core-invalid', label='double:symlink-beside-target:first')
+    t = _base_tree()
+    t.links['d2/alias.suite'] = 'exactly.suite'
+    add(t, 'root.suite', ['suites', 'd2/alias.suite'])
+    yield t.descriptor('core-invalid', label='double:symlink-to-default-suite-file')
+    t = _base_tree()
+    t.links['sub/e/alias.suite'] = 'z.suite'
+    add(t, 'sub/s1.suite', ['suites', 'e/a*.suite'])
+    yield t.descriptor('core-invalid', label='double:symlink-beside-target-via-glob')
+    # one glob whose matches hold the same suite twice: a directory (standing for its exactly.suite) and that file
+    t = _base_tree()
+    add(t, 'root.suite', ['suites', '**/*exactly*'])
+    yield t.descriptor('core-invalid', label='double:one-glob-matching-file-and-(already listed)-dir')
+    t = Tree()
+    t.case('net-suite/n.case')
+    t.suite('net-suite/exactly.suite', [['cases', 'n.case']])
+    t.suite('all.tests', [['suites', '**/*suite*']])
+    yield t.descriptor('core-invalid', root='all.tests', label='double:one-glob-matching-dir-and-its-default-suite-file')
     # --- missing files ----------------------------------------------------------------------------
     for lvl, path in enumerate(_LEVEL_FILES):
         for sec, name in (('cases', 'missing.case'), ('suites', 'missing.suite'), ('cases', 'nodir/x.case'),
